@@ -110,7 +110,7 @@ func gobEncodeItem(it Item) ([]byte, error) {
 			return err
 		})
 	}
-	if IsLink(it) {
+	if IsLink(it) && !IsNil(it) {
 		err = OnLink(it, func(l *Link) error {
 			bytes, err := l.GobEncode()
 			b.Write(bytes)
